@@ -204,6 +204,11 @@ class Generator:
             rng = self.src.impl_block_containing(r"^impl<'a> SetLenOnDrop<'a>$", src_name)
         elif impl == 'free':
             rng = None
+        elif impl == 'nestedfn':
+            # a `fn` item declared inside the body of another function of the main impl block
+            outer = self.src.impl_block_containing(r'^impl<const MIN_ALIGN: usize> Bump<MIN_ALIGN>$', spec['nested_in'])
+            _s, o_, c_ = self.src.find_fn(spec['nested_in'], outer)
+            rng = (o_, c_)
         elif impl.startswith('re:'):
             rng = self.src.impl_block_containing(impl[3:].replace('~', ' '), src_name)
         else:
@@ -218,6 +223,7 @@ class Generator:
             'drain_drop': spec.get('drain_drop'),
             'cb': spec.get('cb'),
             'trait_grow': spec.get('trait_grow'),
+            'wbase': spec.get('wbase'), 'wsize': spec.get('wsize'), 'outer': spec.get('src', spec['name']),
             'guard': spec.get('guard'),
             'strip_nested': spec.get('strip_nested'),
             'drop_takes_state': spec.get('drop_takes_state'),
